@@ -152,6 +152,8 @@ def havoc_unknown_callees(unit, text, err):
                 break
     if not stubs:
         return text, []
+    if "} // verus!" not in text:
+        return text, []
     idx = text.rindex("} // verus!")
     return text[:idx] + "\n// ---- havoc stubs for callees that have no contract in this unit ----\n" + "\n".join(stubs) + "\n" + text[idx:], done
 
